@@ -15,7 +15,14 @@
 //   after request   full_close | full_rst | silence
 //   response cut    resp_close[:cl|chunked]@pos | resp_rst..@pos | resp_silence..@pos   (first n response bytes, then ..)
 //   malformed       bad:<cl_te|cl_conflict|cl_nonnum|obsfold|badversion|badstatus|nocolon|chunk_size|chunk_crlf>
-//   success         ok[:cl|chunked] | ok_connclose[:mixed|list] | ok_surplus[:cl|chunked|204] | ok_closedelim | ok_http10 | ok_http10_ka |
+//   success         ok[:cl|chunked] | ok_connclose[:mixed|list] |
+//                   ok_surplus[:cl|chunked|204][@h_bs|hb_bs_s]   surplus bytes in the SAME write as the end of the response;
+//                       the response in one write, or  headers | body+surplus,  headers+part of body | rest+surplus | surplus
+//                       (the server waits between the writes until the client's engine has read everything sent so far)
+//                   ok_latesurplus:<cl|chunked>@h_b_s | ok_latesurplus:204@h_s   surplus in a segment of its own AFTER the
+//                       complete response (the client may or may not have seen it when it completes: weaker reading)
+//                   ok_idle:<stale|junk>   a complete foreign response / junk delivered while the connection sits in the
+//                       cache (driver-coordinated: after the call returned, before the next request is issued) | ok_closedelim | ok_http10 | ok_http10_ka |
 //                   ok_then_fin | ok_1xx | ok_500 | ok_204 | ok_split[:cl|chunked]@pos
 //   pos = a class (request: peek first line hdr last; response: status hdr hdrend body last) or #<byte offset>
 // A step "stale" is a marker of the model (an attempt the server cannot see); the driver skips it.
@@ -33,6 +40,9 @@
 //                              why = close_signal | surplus | close_delim | failure | framing
 //   SLate{c}                   the server answered later than rt/2 after the client-side marker: execution inconclusive
 //   SOverlap{c}                bytes of another request were already there before the response was sent (lease; note only)
+//   SLateSurplus{c,r} SIdle{c} surplus after the complete response / while idle was sent on c (no taint: weaker reading)
+//   Ret.rt                     the X-Resp tag of the response the call returned (every scripted response carries the tag of
+//                              the request it answers; the foreign idle response carries 99)
 #include <algorithm>
 #include <arpa/inet.h>
 #include <atomic>
@@ -179,6 +189,8 @@ struct SendFault
 };
 static std::map<int, SendFault> g_sendFaults; // client fd -> pending fault
 static std::map<int, double> g_mark;          // logical request -> latest client-side marker time (Call / CConn)
+static std::map<int, long long> g_clientRecv; // connection -> bytes the client's engine has recv()'d on it
+static thread_local bool t_isServer = false;  // the scripted server's own recv() calls are not counted
 static double g_markAny = 0;
 
 static const Step *lookupStep(int r, int k)
@@ -192,6 +204,12 @@ static const Step *lookupStep(int r, int k)
 // ------------------------------------------------------------------ interposed connect() / send()
 typedef int (*connect_fn)(int, const struct sockaddr *, socklen_t);
 typedef ssize_t (*send_fn)(int, const void *, size_t, int);
+typedef ssize_t (*recv_fn)(int, void *, size_t, int);
+static recv_fn realRecv()
+{
+  static recv_fn f = (recv_fn)dlsym(RTLD_NEXT, "recv");
+  return f;
+}
 static connect_fn realConnect()
 {
   static connect_fn f = (connect_fn)dlsym(RTLD_NEXT, "connect");
@@ -295,6 +313,44 @@ extern "C" ssize_t send(int fd, const void *buf, size_t n, int flags)
   return -1;
 }
 
+// counts what the client's engine has actually read per connection (lets the server / the driver wait until bytes they
+// sent have been consumed by the client, instead of guessing with sleeps)
+extern "C" ssize_t recv(int fd, void *buf, size_t n, int flags)
+{
+  ssize_t k = realRecv()(fd, buf, n, flags);
+  if (k <= 0 || t_isServer || (flags & MSG_PEEK) || !g_on.load()) return k;
+  int saved = errno;
+  sockaddr_in p{};
+  socklen_t pl = sizeof p;
+  if (getpeername(fd, (sockaddr *)&p, &pl) == 0 && p.sin_family == AF_INET && ntohs(p.sin_port) == g_serverPort)
+  {
+    sockaddr_in l{};
+    socklen_t ll = sizeof l;
+    if (getsockname(fd, (sockaddr *)&l, &ll) == 0)
+    {
+      std::lock_guard<std::mutex> g(g_mx);
+      auto it = g_ports.find(ntohs(l.sin_port));
+      if (it != g_ports.end()) g_clientRecv[it->second.cid] += k;
+    }
+  }
+  errno = saved;
+  return k;
+}
+
+static bool waitClientRecv(int cid, long long target, int timeoutMs)
+{
+  double t0 = vf::nowSec();
+  for (;;)
+  {
+    {
+      std::lock_guard<std::mutex> g(g_mx);
+      if (g_clientRecv[cid] >= target) return true;
+    }
+    if ((vf::nowSec() - t0) * 1000 > timeoutMs) return false;
+    usleep(300);
+  }
+}
+
 // ------------------------------------------------------------------ scripted server
 static std::string crlf(const std::vector<std::string> &lines)
 {
@@ -309,7 +365,7 @@ struct Built
   size_t statusEnd = 0, hdrEnd = 0; // offsets: end of status line, end of header block (after CRLFCRLF)
 };
 
-static Built buildResponse(const std::string &kind, const std::string &variantIn, bool head)
+static Built buildResponse(const std::string &kind, const std::string &variantIn, bool head, int r)
 {
   std::string variant = variantIn.empty() ? "cl" : variantIn;
   std::string status = "HTTP/1.1 200 OK";
@@ -318,13 +374,15 @@ static Built buildResponse(const std::string &kind, const std::string &variantIn
   bool chunked = variant == "chunked";
   if (kind == "ok_http10" || kind == "ok_http10_ka") status = "HTTP/1.0 200 OK";
   if (kind == "ok_500") status = "HTTP/1.1 500 Internal Server Error";
-  bool is204 = kind == "ok_204" || (kind == "ok_surplus" && variantIn == "204");
+  bool is204 = kind == "ok_204" || ((kind == "ok_surplus" || kind == "ok_latesurplus") && variantIn == "204");
   if (is204)
   {
     status = "HTTP/1.1 204 No Content";
     body = "";
   }
   h.push_back("Content-Type: text/plain");
+  h.push_back("X-Resp: " + std::to_string(r)); // which request this response answers
+  if (kind == "stale") body = "stale";
   if (kind == "ok_connclose")
     h.push_back(variantIn == "mixed" ? "connection: Close" : variantIn == "list" ? "Connection: keep-alive, close" : "Connection: close");
   if (kind == "ok_http10_ka") h.push_back("Connection: keep-alive");
@@ -447,9 +505,13 @@ struct SConn
   bool closed = false;
   bool halfClosed = false; // we sent FIN (close-delimited body) but keep reading
   bool preBytes = false;   // request bytes were already pending when the connection was tainted
+  long long sent = 0;      // bytes written to this connection so far
+  std::string idlePending; // ok_idle: what to deliver while the connection sits in the client's cache
 };
 
 static std::atomic<bool> g_stop{false};
+static std::atomic<int> g_idleReq{0}, g_idleAck{0};
+static std::vector<std::pair<int, long long>> g_idleTargets; // (connection, bytes sent in total) of the last delivery
 static std::vector<SConn> g_conns;
 static int g_listenFd = -1;
 
@@ -486,6 +548,9 @@ static void sendAll(int fd, const char *p, size_t n)
     off += (size_t)k;
   }
 }
+
+struct SConn;
+static void sendConn(SConn &c, const char *p, size_t n);
 
 static int tagOf(const std::string &s) // "METHOD /r<digits> ..." -> digits; 0 if the request line is not complete
 {
@@ -541,6 +606,52 @@ static void checkLate(SConn &c, int r)
   if (vf::nowSec() - mark > g_case.rt / 2000.0) g_trace.add(ev("SLate").i("c", c.cid));
 }
 
+static void sendConn(SConn &c, const char *p, size_t n)
+{
+  if (c.fd < 0) return;
+  sendAll(c.fd, p, n);
+  c.sent += (long long)n;
+}
+
+// Surplus bytes after a complete response.  ok_surplus: the surplus is in the SAME write as the last byte of the response
+// (whatever the segmentation before it), so a client that reads what has arrived cannot miss it: the connection is
+// tainted.  ok_latesurplus: the surplus comes in a write of its own after the complete response; the client may already
+// have completed the exchange: no taint (weaker reading), only SLateSurplus.
+static void surplusResponse(SConn &c, const Step &st, const std::string &k, bool head, int r)
+{
+  Built b = buildResponse(k, st.variant, head, r);
+  const std::string &y = b.bytes;
+  size_t H = b.hdrEnd, T = y.size();
+  std::vector<std::string> segs;
+  if (st.pos == "h_bs" && T > H)
+    segs = {y.substr(0, H), y.substr(H) + "XTRA"};
+  else if (st.pos == "hb_bs_s" && T > H + 1)
+  {
+    size_t m = H + (T - H) / 2;
+    segs = {y.substr(0, m), y.substr(m) + "XT", "RA"};
+  }
+  else if (st.pos == "h_b_s" && T > H)
+    segs = {y.substr(0, H), y.substr(H), "XTRA"};
+  else if (st.pos == "h_s")
+    segs = {y, "XTRA"};
+  else
+    segs = {y + "XTRA"}; // one write: response and surplus arrive together
+  if (k == "ok_surplus")
+    taint(c, "surplus", r);
+  else
+    g_trace.add(ev("SLateSurplus").i("c", c.cid).i("r", r));
+  for (size_t i = 0; i < segs.size(); ++i)
+  {
+    sendConn(c, segs[i].data(), segs[i].size());
+    if (i + 1 < segs.size())
+    {
+      // the next write only after the client's engine has read everything sent so far, plus time to parse it
+      waitClientRecv(c.cid, c.sent, 150);
+      usleep(8000);
+    }
+  }
+}
+
 static void selectStep(SConn &c, int r)
 {
   std::lock_guard<std::mutex> g(g_mx);
@@ -576,39 +687,45 @@ static void respond(SConn &c, int r, const std::string &method)
   }
   if (k == "resp_close" || k == "resp_rst" || k == "resp_silence")
   {
-    Built b = buildResponse("ok", st.variant, head);
+    Built b = buildResponse("ok", st.variant, head, r);
     size_t n = respCut(st, b);
     if (k == "resp_silence") taint(c, "failure", r);
-    sendAll(c.fd, b.bytes.data(), n);
+    sendConn(c, b.bytes.data(), n);
     if (k != "resp_silence") hardClose(c, k == "resp_rst");
     return;
   }
   if (k == "bad")
   {
-    Built b = buildResponse("bad", st.variant, head);
+    Built b = buildResponse("bad", st.variant, head, r);
     taint(c, "framing", r);
-    sendAll(c.fd, b.bytes.data(), b.bytes.size());
+    sendConn(c, b.bytes.data(), b.bytes.size());
     checkLate(c, r);
     return;
   }
-  Built b = buildResponse(k, st.variant, head);
+  if (k == "ok_surplus" || k == "ok_latesurplus")
+  {
+    surplusResponse(c, st, k, head, r);
+    return;
+  }
+  std::string ov = st.variant;
+  if (k == "ok_idle")
+  {
+    c.idlePending = st.variant; // delivered later, on the driver's signal (deliverIdle)
+    ov = "";
+  }
+  Built b = buildResponse(k, ov, head, r);
   std::string out = b.bytes;
   if (k == "ok_connclose" || k == "ok_http10") taint(c, "close_signal", r);
-  if (k == "ok_surplus")
-  {
-    out += "XTRA";
-    taint(c, "surplus", r);
-  }
   if (k == "ok_closedelim" && !head) taint(c, "close_delim", r);
   if (k == "ok_split")
   {
     size_t n = respCut(st, b);
-    sendAll(c.fd, out.data(), n);
+    sendConn(c, out.data(), n);
     usleep(3000);
-    sendAll(c.fd, out.data() + n, out.size() - n);
+    sendConn(c, out.data() + n, out.size() - n);
   }
   else
-    sendAll(c.fd, out.data(), out.size()); // one write: response and surplus arrive together
+    sendConn(c, out.data(), out.size()); // one write: response and surplus arrive together
   if (k == "ok_closedelim" && !head)
   {
     shutdown(c.fd, SHUT_WR);
@@ -764,11 +881,34 @@ static void acceptAll()
   }
 }
 
+static void serverDeliverIdle()
+{
+  std::vector<std::pair<int, long long>> targets;
+  for (auto &c : g_conns)
+    if (c.fd >= 0 && !c.idlePending.empty())
+    {
+      std::string bytes = c.idlePending == "stale" ? buildResponse("stale", "", false, 99).bytes : std::string("XTRA");
+      c.idlePending.clear();
+      g_trace.add(ev("SIdle").i("c", c.cid));
+      sendConn(c, bytes.data(), bytes.size());
+      targets.push_back({c.cid, c.sent});
+    }
+  std::lock_guard<std::mutex> g(g_mx);
+  g_idleTargets = targets;
+}
+
 static void serverLoop()
 {
+  t_isServer = true;
   while (true)
   {
     bool stopping = g_stop.load();
+    if (g_idleReq.load() != g_idleAck.load())
+    {
+      int gen = g_idleReq.load();
+      serverDeliverIdle();
+      g_idleAck.store(gen);
+    }
     std::vector<pollfd> pf;
     pf.push_back({g_listenFd, POLLIN, 0});
     std::vector<size_t> idx;
@@ -834,7 +974,7 @@ static void doRequest(HttpClient &client, int r)
   std::map<std::string, std::string> hdr{{"X-Req", std::to_string(r)}};
   std::string body = hasBody(rq.method) ? "payload" : "";
   const char *res = "ok";
-  int status = 0;
+  int status = 0, rtag = 0;
   double t0 = vf::nowSec();
   g_callStart[r].store(t0);
   g_inCall[r].store(1);
@@ -842,6 +982,8 @@ static void doRequest(HttpClient &client, int r)
   {
     auto resp = (client.*rob::performFn())(rq.method, url, body, hdr, rq.budget);
     status = resp.statusCode;
+    auto it = resp.headers.find("X-Resp");
+    if (it != resp.headers.end()) rtag = atoi(it->second.c_str());
   }
   catch (const iora::network::HttpFramingError &)
   {
@@ -861,7 +1003,7 @@ static void doRequest(HttpClient &client, int r)
   }
   double ms = (vf::nowSec() - t0) * 1000.0;
   g_inCall[r].store(0);
-  g_trace.add(ev("Ret").i("r", r).str("res", res).i("st", status).i("ms", (long long)ms));
+  g_trace.add(ev("Ret").i("r", r).str("res", res).i("st", status).i("ms", (long long)ms).i("rt", rtag));
 }
 
 // Quiescence barrier between logical requests.  connectSync gives up after its timeout even when the engine's I/O thread
@@ -884,6 +1026,24 @@ static void barrier(HttpClient &client)
     }
     if (res.error().code != iora::network::TransportError::Timeout) return;
   }
+}
+
+// ok_idle: the call has returned, the connection sits in the cache.  The server now sends the idle bytes; we wait until the
+// client's engine has recv()'d them and then pass the barrier: the engine handles one thing at a time, so the onData
+// dispatch of those bytes is over when a later command has been processed.  Only then the next request is issued - the
+// bytes did arrive, and were handled, while the connection was idle.
+static void deliverIdle(HttpClient &client)
+{
+  int gen = ++g_idleReq;
+  double t0 = vf::nowSec();
+  while (g_idleAck.load() != gen && vf::nowSec() - t0 < 2.0) usleep(300);
+  std::vector<std::pair<int, long long>> targets;
+  {
+    std::lock_guard<std::mutex> g(g_mx);
+    targets = g_idleTargets;
+  }
+  for (auto &t : targets) waitClientRecv(t.first, t.second, 300);
+  if (!targets.empty()) barrier(client);
 }
 
 static std::string runCase(const CaseSpec &cs)
@@ -925,6 +1085,9 @@ static std::string runCase(const CaseSpec &cs)
             g_curReq.store(r);
             doRequest(client, r);
             barrier(client);
+            bool idleStep = false;
+            for (auto &st : cs.reqs[r - 1].steps) idleStep = idleStep || st.kind == "ok_idle";
+            if (idleStep) deliverIdle(client);
             // let a FIN the server sent after its response (ok_then_fin) reach the client's engine
             std::this_thread::sleep_for(std::chrono::milliseconds(40));
           }
@@ -1015,8 +1178,8 @@ int main(int argc, char **argv)
     // request length per method = n of the SReq event of a plain exchange; response lengths from the builder
     std::string out = argv[2];
     FILE *f = fopen(out.c_str(), "w");
-    fprintf(f, "{\"resp\":{\"cl\":%zu,\"chunked\":%zu,\"cl_head\":%zu}}\n", buildResponse("ok", "cl", false).bytes.size(),
-            buildResponse("ok", "chunked", false).bytes.size(), buildResponse("ok", "cl", true).bytes.size());
+    fprintf(f, "{\"resp\":{\"cl\":%zu,\"chunked\":%zu,\"cl_head\":%zu}}\n", buildResponse("ok", "cl", false, 1).bytes.size(),
+            buildResponse("ok", "chunked", false, 1).bytes.size(), buildResponse("ok", "cl", true, 1).bytes.size());
     fclose(f);
     return 0;
   }
